@@ -8,6 +8,9 @@ import (
 	"flag"
 	"fmt"
 	"os"
+	"regexp"
+	"runtime/debug"
+	"strconv"
 	"strings"
 
 	"github.com/csgura/fp"
@@ -19,11 +22,24 @@ import (
 
 type Fut = fp.Future[any]
 
-var pool []func()
+// ptask: a pooled task and the executor it was handed to ("u": the user-supplied executor, "d": a default
+// executor, caught by the spawn hook)
+type ptask struct {
+	run func()
+	ex  string
+}
+
+var pool []ptask
 
 type userExec struct{}
 
-func (userExec) ExecuteUnsafe(r fp.Runnable) { pool = append(pool, r.Run) }
+func (userExec) ExecuteUnsafe(r fp.Runnable) { pool = append(pool, ptask{r.Run, "u"}) }
+
+func runPooled(t ptask) {
+	curEx = t.ex
+	defer func() { curEx = "s" }()
+	t.run()
+}
 
 // ctx returns the executor argument for combinators that accept one: mode 0 = none (default executor,
 // captured by the spawn hook), mode 1 = the user-supplied executor.
@@ -38,6 +54,11 @@ type world struct {
 	srcP []fp.Promise[any]
 	defs []Fut
 	mode int
+	// arity-indexed builders (chain.go)
+	defSx        []*Sx // the definition each entry of defs was built from
+	blds         []*bldRec
+	curB, curPos int
+	stmt         int // index of the statement being executed
 }
 
 func (w *world) h(s *Sx) Fut {
@@ -222,6 +243,9 @@ func (w *world) build(s *Sx) Fut {
 	case "m.failed":
 		return future.Map(w.h(a[1]).Failed(), func(e error) any { return ShowErr(e) }, c...)
 	}
+	if f, ok := w.buildFam(s); ok {
+		return f
+	}
 	panic("bad FEXPR " + s.String())
 }
 
@@ -245,18 +269,31 @@ func (w *world) snapshot() string {
 
 func runScenario(op *Sx, checkDirect func(w *world, stmts []*Sx, upto int, quiescent bool)) string {
 	pool = nil
-	fp.VerifSetSpawnHook(func(run func()) bool { pool = append(pool, run); return true })
+	curEx = "s"
+	fp.VerifSetSpawnHook(func(run func()) bool { pool = append(pool, ptask{run, "d"}); return true })
 	a := op.List
-	w := &world{mode: a[2].Int()}
+	w := &world{mode: a[2].Int(), curB: -1, curPos: -1}
 	for i := 0; i < a[1].Int(); i++ {
 		w.srcP = append(w.srcP, promise.New[any]())
 	}
 	out := []string{}
 	stmts := a[3:]
 	for si, st := range stmts {
+		w.stmt = si
 		switch st.Head() {
 		case "def":
 			w.defs = append(w.defs, w.build(st.List[1]))
+			w.defSx = append(w.defSx, st.List[1])
+		case "cnew": // (cnew chain|applicative N FN)
+			w.newBld(st.List[1].Atom, st.List[2].Int(), st.List[3])
+		case "cstep": // (cstep b STEP)
+			bid := st.List[1].Int()
+			if fut, done := w.stepBld(bid, st.List[2]); done {
+				w.defs = append(w.defs, fut)
+				w.defSx = append(w.defSx, w.blds[bid].sx())
+			}
+		case "mark":
+			Emit("mark%d", st.List[1].Int())
 		case "obs":
 			id := st.List[2].Int()
 			w.h(st.List[1]).OnComplete(func(t fp.Try[any]) { Emit("obs%d:%s", id, Show(t)) }, ctx(w.mode)...)
@@ -268,13 +305,13 @@ func runScenario(op *Sx, checkDirect func(w *world, stmts []*Sx, upto int, quies
 			if i < len(pool) {
 				t := pool[i]
 				pool = append(pool[:i:i], pool[i+1:]...)
-				t()
+				runPooled(t)
 			}
 		case "drain":
 			for len(pool) > 0 {
 				t := pool[0]
 				pool = pool[1:]
-				t()
+				runPooled(t)
 			}
 		case "snap":
 			out = append(out, w.snapshot())
@@ -319,6 +356,11 @@ func genF2(r *Rng) *Sx { return L(A(Pick(r, "add", "pair")), I(NewID())) }
 
 func genDef(r *Rng, nsrc, ndef int) *Sx {
 	h := func() *Sx { return genH(r, nsrc, ndef) }
+	if r.Intn(100) < 40 {
+		if d := genFam(r, nsrc, ndef); d != nil {
+			return d
+		}
+	}
 	switch r.Intn(30) {
 	case 0:
 		return L(A("successful"), I(r.Range(-3, 9)))
@@ -395,6 +437,9 @@ func genT(r *Rng) *Sx {
 var hist = map[string]int{}
 
 func genScenario(r *Rng) *Sx {
+	if r.Intn(4) == 0 {
+		return genOrderedScenario(r)
+	}
 	ResetIDs()
 	nsrc := r.Range(1, 3)
 	mode := r.Intn(2)
@@ -406,14 +451,47 @@ func genScenario(r *Rng) *Sx {
 	}
 	poolEstimate := 0
 	steps := r.Range(3, 14)
+	// builders held by the scenario: index, remaining method kinds
+	type openB struct {
+		bid   int
+		kinds []string
+	}
+	open := []*openB{}
+	nbld := 0
+	stepOpen := func() {
+		j := r.Intn(len(open))
+		o := open[j]
+		stmts = append(stmts, L(A("cstep"), I(o.bid), genStep(r, o.kinds[0], nsrc, ndef)))
+		o.kinds = o.kinds[1:]
+		poolEstimate += 3
+		if len(o.kinds) == 0 {
+			open = append(open[:j], open[j+1:]...)
+			ndef++
+		}
+	}
 	for i := 0; i < steps; i++ {
-		switch k := r.Intn(10); {
+		switch k := r.Intn(12); {
+		case k == 10 && len(open) < 2:
+			kind := Pick(r, "chain", "chain", "applicative")
+			if n, kinds := builderPlan(r, kind); n > 0 {
+				stmts = append(stmts, L(A("cnew"), A(kind), I(n), genFN(r)))
+				open = append(open, &openB{nbld, kinds})
+				nbld++
+				hist["staged."+kind]++
+			}
+		case k >= 10 && len(open) > 0, k == 9 && len(open) > 0 && r.Bool():
+			stepOpen()
+		case k == 11 || (k == 9 && r.Intn(3) == 0):
+			stmts = append(stmts, L(A("mark"), I(i)))
 		case k < 4 && ndef < 6:
 			d := genDef(r, nsrc, ndef)
 			hist[d.Head()]++
 			stmts = append(stmts, L(A("def"), d))
 			ndef++
 			poolEstimate += 2
+			if d.Head() == "chain" || d.Head() == "applicative" {
+				nbld++ // one-shot builders take a builder slot too
+			}
 		case k == 4:
 			stmts = append(stmts, L(A("obs"), genH(r, nsrc, ndef), I(NewID())))
 			poolEstimate++
@@ -431,6 +509,16 @@ func genScenario(r *Rng) *Sx {
 			stmts = append(stmts, L(A("run"), I(r.Intn(poolEstimate+1))))
 		}
 	}
+	// finish the builders still open, with task runs in between
+	for len(open) > 0 {
+		stepOpen()
+		if r.Intn(3) == 0 {
+			stmts = append(stmts, L(A("run"), I(r.Intn(poolEstimate+1))))
+		}
+		if r.Intn(6) == 0 {
+			stmts = append(stmts, L(A("drain")))
+		}
+	}
 	stmts = append(stmts, L(A("drain")), L(A("snap")))
 	for _, p := range pending {
 		stmts = append(stmts, L(A("src"), I(p), genT(r)))
@@ -444,6 +532,60 @@ func genScenario(r *Rng) *Sx {
 func runCase(op *Sx) string { return Outcome(func() string { return runScenario(op, nil) }) }
 
 var directChecks int
+
+// staleGlue: chain_gen.go must have been generated from the very sources this binary is linked against: re-scan the
+// replaced module's future package and compare the arities found with the compiled-in table.
+func staleGlue() []string {
+	bi, ok := debug.ReadBuildInfo()
+	if !ok {
+		return nil
+	}
+	dir := ""
+	for _, d := range bi.Deps {
+		if d.Path == "github.com/csgura/fp" && d.Replace != nil {
+			dir = d.Replace.Path
+		}
+	}
+	if dir == "" {
+		return nil
+	}
+	src := ""
+	for _, f := range []string{"future/applicative_gen.go", "future/func_gen.go", "future/future_op.go"} {
+		b, err := os.ReadFile(dir + "/" + f)
+		if err != nil {
+			return []string{"cannot read " + dir + "/" + f + " to verify the generated glue"}
+		}
+		src += string(b) + "\n"
+	}
+	out := []string{}
+	for fam, want := range genArities {
+		name := strings.TrimSuffix(strings.TrimPrefix(fam, "future."), "N")
+		if !strings.HasPrefix(fam, "future.") || name == "Zip" {
+			continue
+		}
+		got := map[int]bool{}
+		for _, m := range regexp.MustCompile(`(?m)^func `+name+`(\d+)\[`).FindAllStringSubmatch(src, -1) {
+			if k, _ := strconv.Atoi(m[1]); k >= 1 {
+				got[k] = true
+			}
+		}
+		for _, base := range []struct{ fam, fn string }{{"future.LiftAN", "Lift"}, {"future.LiftMN", "LiftM"}, {"future.FlapN", "Flap"}} {
+			if fam == base.fam && regexp.MustCompile(`(?m)^func `+base.fn+`\[`).MatchString(src) {
+				got[1] = true
+			}
+		}
+		for _, k := range want {
+			if !got[k] {
+				out = append(out, fmt.Sprintf("%s: arity %d is in the generated glue but not in %s (re-run gen_future.py)", fam, k, dir))
+			}
+			delete(got, k)
+		}
+		for k := range got {
+			out = append(out, fmt.Sprintf("%s: arity %d exists in %s but not in the generated glue (re-run gen_future.py)", fam, k, dir))
+		}
+	}
+	return out
+}
 
 func main() {
 	seed := flag.Uint64("seed", 1, "PRNG seed")
@@ -473,12 +615,28 @@ func main() {
 		fmt.Printf("{\"cases\": %d}\n", sink.N)
 		return
 	}
+	for _, c := range genCoverage {
+		sink.DirectFail("coverage", "gen_future.py", c)
+	}
+	for _, c := range staleGlue() {
+		sink.DirectFail("coverage", "gen_future.py", c)
+	}
 	for i := 0; i < *n; i++ {
 		op := genScenario(r)
 		sink.Case(op.String(), func() string { return runCase(op) })
 		directCase(op, sink)
 	}
 	sink.Close()
+	nc, na := 0, 0
+	for k := range covChain {
+		if strings.HasPrefix(k, "chain.") {
+			nc++
+		} else {
+			na++
+		}
+	}
+	hist["cov.MonadChainN receiver x method"] = nc
+	hist["cov.ApplicativeFunctorN receiver x method"] = na
 	parts := []string{}
 	for k, v := range hist {
 		parts = append(parts, fmt.Sprintf("%q: %d", k, v))
